@@ -277,7 +277,7 @@ func run(c *core.Ctx, which string) {
 	case "C11":
 		c.Rule = "histories of <=D Set(zero)/Set(non-zero)/Set(-0)/Clear/Mutable/list/map operations over one representative field per presence class (proto2 optional, proto3 implicit, proto3 optional, editions EXPLICIT/IMPLICIT/LEGACY_REQUIRED, repeated, map, oneof member) on real messages vs the model; after every step Has must equal the model's presence, and the message is round-tripped through the binary, JSON and text codecs: presence and content must survive, and no record of an unpopulated known field (e.g. an implicit-presence zero) may appear on the wire"
 	case "C12":
-		c.Rule = "histories of <=D operations over ALL members of every oneof (scalar, enum, bytes, string, message, group members): reflection Set/Mutable/Set(new)/Clear, proto.Merge from a single-member message, Unmarshal{Merge} of a single-member encoding; after every step at most one member Has, WhichOneof names it and content equals the model (last writer wins; same message member merges). Plus all wire sequences of <=3 member records (binary: last wins) and all JSON/text documents naming one or two members (two members, or one member twice, must be rejected)"
+		c.Rule = "histories of <=D operations over ALL members of every oneof (scalar, enum, bytes, string, message, group members): reflection Set/Mutable/Set(new)/Clear, proto.Merge from a single-member message, Unmarshal{Merge} of a single-member encoding; after every step at most one member Has, WhichOneof names it and content equals the model (last writer wins; same message member merges). Plus all wire sequences of <=3 member records, among them records that carry a member's number with a wire type the member cannot have (unknown field: the oneof stays as it was) (binary: last wins) and all JSON/text documents naming one or two members (two members, or one member twice, must be rejected)"
 	}
 	c.Exhaustive = true
 	var out []map[string]any
